@@ -1,4 +1,52 @@
+(* C02 — assignments are the plurality of bootstrapped nearest-centroid votes. *)
 From Coq Require Import ZArith List Bool.
-From CTM Require Import Model.Vote.
-Theorem c02_placeholder : True. Proof. exact I. Qed.
-Print Assumptions c02_placeholder.
+From CTM Require Import Base.Sx Model.IntDtype Model.Vote Proofs.CorrP Proofs.ArgmaxP Proofs.VoteP Proofs.VoteMainP.
+Import ListNotations.
+Open Scope Z_scope.
+
+(* each iteration votes for a reference row whose Pearson correlation with the cell over the
+   drawn subset is maximal among the rows considered (the leaves below the node), and for
+   the first such row (np.argmax); key_lt compares correlations exactly *)
+Theorem c02_vote_is_argmax : forall q refs S i,
+  nearest q refs S = Some i ->
+  (i < length refs)%nat /\
+  exists ki, nth_error (keys_of q refs S) i = Some ki /\
+    (forall j kj, nth_error (keys_of q refs S) j = Some kj -> key_lt ki kj = false) /\
+    (forall j kj, (j < i)%nat -> nth_error (keys_of q refs S) j = Some kj -> key_lt kj ki = true).
+Proof. exact nearest_is_argmax. Qed.
+Print Assumptions c02_vote_is_argmax.
+
+(* key_lt really is "smaller correlation": a strict weak order on keys *)
+Theorem c02_key_order : forall k1 k2 k3, kvalid k1 -> kvalid k2 -> kvalid k3 ->
+  (klt k1 k2 -> klt k2 k3 -> klt k1 k3) /\ (~ klt k1 k2 -> klt k1 k3 -> klt k2 k3) /\ ~ klt k1 k1.
+Proof.
+  intros k1 k2 k3 V1 V2 V3. split; [exact (klt_trans k1 k2 k3 V1 V2 V3)|].
+  split; [exact (klt_neg_trans k1 k2 k3 V1 V2 V3) | exact (klt_irrefl k1)].
+Qed.
+Print Assumptions c02_key_order.
+
+(* every iteration casts exactly one vote, and it goes to a child that owns a leaf below the node *)
+Theorem c02_one_vote_per_iteration : forall owners winners,
+  Forall (fun w => (w < length owners)%nat) winners ->
+  nsum (map (votes_for owners winners) (zdistinct owners)) = length winners.
+Proof. exact votes_total. Qed.
+Print Assumptions c02_one_vote_per_iteration.
+
+(* whatever the tie order of the sort, a reported outcome accepted by check_choice names a
+   child with the most votes, and the runners-up are the remaining vote getters in
+   non-increasing order *)
+Theorem c02_winner_plurality : forall kids vf n_assign w wv rs,
+  check_choice kids vf n_assign w wv rs = true ->
+  In w kids /\ vf w = wv /\ (forall c, In c kids -> (vf c <= wv)%nat) /\
+  NoDup (w :: map fst rs) /\
+  (forall r, In r rs -> In (fst r) kids /\ vf (fst r) = snd r /\ (0 < snd r)%nat) /\
+  sorted_desc (wv :: map snd rs) = true /\
+  length rs = Nat.min (n_assign - 1) (count (fun c => negb (c =? w) && Nat.ltb 0 (vf c)) kids) /\
+  (forall c, In c kids -> In c (w :: map fst rs) \/ (vf c <= last (map snd rs) wv)%nat).
+Proof. exact check_unpack. Qed.
+Print Assumptions c02_winner_plurality.
+
+Example c02_example :
+  nearest [8; 0; 16; 24] [[0; 8; 0; 0]; [16; 0; 32; 50]; [8; 0; 16; 24]] [0%nat; 2%nat; 3%nat] = Some 2%nat /\
+  n_bootstrap (1, 2) 5 = 2 /\ n_bootstrap (1, 10) 3 = 1 /\ n_bootstrap (1, 2) 0 = 0.
+Proof. vm_compute. repeat split; reflexivity. Qed.
